@@ -191,6 +191,24 @@ def run(ctx):
         cfgs = [c for c in CFGS if not (b["weakly"] and c[0] == "c-inference")]
         system, pm = rng.choice(cfgs)
         pool = [(q[1], q[2]) for q in b["queries"]]
+        if rng.random() < 0.4 and b["n"] <= 4:
+            # atoms that occur in no conditional (declared in the signature only): new solver variables appear per query
+            n0 = b["n"]
+            b["n"] = n0 + 2
+            x, y = ("a", n0), ("a", n0 + 1)
+            for _ in range(5):
+                cb, ca = rng.choice(pool)
+                r = rng.random()
+                if r < 0.3:
+                    pool.append((rng.choice([x, y, ("!", y)]), rng.choice([x, y, ("&", x, ca)])))
+                elif r < 0.65:
+                    pool.append((cb, ("&", ca, rng.choice([x, y, ("&", x, y)]))))
+                else:
+                    pool.append(core.gen_cond(rng, n0 + 2, 2, 0.03))
+            rng.shuffle(pool)
+            extra_atoms = True
+        else:
+            extra_atoms = False
         history = []
         par_budget = 1 if quick else 2
         for _ in range(rng.randint(2, 5)):
@@ -209,7 +227,7 @@ def run(ctx):
         # bases with >= 3 layers (deep recursions, more solver state to leak) are asked with every operator
         for system, pm in (cfgs if (layers or 0) >= 3 else [(system, pm)]):
             cases.append({"n": b["n"], "weakly": b["weakly"], "base": b["base"], "layers": layers, "system": system, "pmaxsat": pm,
-                          "history": history})
+                          "history": history, "extra_atoms": extra_atoms})
     impls = pmap_nd(impl_eval, cases, min(ctx.procs, 8))
     for c, impl in zip(cases, impls):
         ref = impl.get("ref") if c["system"] == "c-inference" else reference(c)
@@ -217,6 +235,8 @@ def run(ctx):
         ctx.bump(f"operator={c['system']}/{c['pmaxsat']}")
         ctx.bump(f"calls={len(c['history'])}")
         ctx.bump(f"layers={c.get('layers')}")
+        if c.get("extra_atoms"):
+            ctx.bump("histories_with_atoms_outside_the_base")
         par = sum(1 for call in c["history"] if call["multi"])
         ctx.bump("parallel_calls", par)
         dup = any(len({json.dumps(q[1:]) for q in call["queries"]}) < len(call["queries"]) for call in c["history"])
